@@ -124,7 +124,13 @@ def run_tool(b, tool, data, workroot, timeout=20, args=(), keep=False, want_sig=
         sg = gdb_signature(b, tool, path, [path if a == "{in}" else a for a in args], out_d, no_input=no_input) if want_sig else "?"
         res.update(cls="signal", sig=f"{name}:{sg}")
     elif rc == 0:
-        res.update(cls="accept", sig="")
+        m = re.search(r"^.*\b(internal error|error)\b.*$", err, re.I | re.M)
+        if m:
+            # exit-status discipline for the messages the tools print themselves: an error message and the success status
+            line = re.sub(r"\S*/", "", m.group(0))
+            res.update(cls="badexit", sig="status 0 after an error message: " + re.sub(r"\d+", "N", line)[:90])
+        else:
+            res.update(cls="accept", sig="")
     elif 1 <= rc <= SMALL_MAX:
         if err.strip() or outt.strip():
             res.update(cls="reject", sig="")
